@@ -61,6 +61,12 @@ def scenario_for(seed, index, tier, _depth=0, _proto=None):
     sc = _scenario_for(seed, index, tier, _depth, _proto)
     if _depth:
         return sc
+    if sc['user_plugin_listener']:
+        # how the application words its answer: success stated, or implied
+        # by the presence of data (also empty data), or by its absence
+        sc['user_answer'] = make_rng('answer-form', ID, seed, index).choice(
+            ['explicit', 'explicit', 'implied', 'implied-empty',
+             'implied-declined'])
     lg = sc['logins'][0]
     kinds = [s_[0] for s_ in lg['steps']]
     if len(sc['logins']) == 1 and \
@@ -329,9 +335,22 @@ def execute(scenario, tape):
                         not st.get('enc_response_on_its_way'):
                     asked.append(p)
                     raise IgnorePacket
-                conn.write_packet(serverbound.login.PluginResponsePacket(
-                    message_id=p.message_id, successful=True,
-                    data=b'user:' + bytes(p.data)[:8]))
+                form = scenario.get('user_answer', 'explicit')
+                if form == 'explicit':
+                    ans = serverbound.login.PluginResponsePacket(
+                        message_id=p.message_id, successful=True,
+                        data=b'user:' + bytes(p.data)[:8])
+                elif form == 'implied':
+                    ans = serverbound.login.PluginResponsePacket(
+                        message_id=p.message_id,
+                        data=b'user:' + bytes(p.data)[:8])
+                elif form == 'implied-empty':
+                    ans = serverbound.login.PluginResponsePacket(
+                        message_id=p.message_id, data=b'')
+                else:
+                    ans = serverbound.login.PluginResponsePacket(
+                        message_id=p.message_id)
+                conn.write_packet(ans)
                 raise IgnorePacket
             conn.register_packet_listener(
                 on_plugin, clientbound.login.PluginRequestPacket, early=True)
@@ -561,9 +580,18 @@ def check_login(scenario, w, st, res, ids, k, lg, ob):
             continue
         for ok, data in a:
             if scenario['user_plugin_listener']:
-                if not ok or not data.startswith(b'user:'):
+                form = scenario.get('user_answer', 'explicit')
+                if scenario.get('answer_thread') and data.startswith(
+                        b'user:'):
+                    form = 'explicit'       # written by the answering thread
+                good = {'explicit': ok and data.startswith(b'user:'),
+                        'implied': ok and data.startswith(b'user:'),
+                        'implied-empty': ok and data == b'',
+                        'implied-declined': not ok and data == b''}[form]
+                if not good:
                     V.append(('C10/plugin-user-answer-lost',
-                              {'mid': mid, 'ok': ok}))
+                              {'mid': mid, 'ok': ok, 'form': form,
+                               'data': data.hex()[:24]}))
             elif ok or data:
                 V.append(('C10/plugin-default-answer-not-unsuccessful',
                           {'mid': mid, 'ok': ok, 'data': data.hex()[:20]}))
